@@ -34,46 +34,57 @@ def variant_constraints(path, enum=TYPE):
 
 
 def is_param_word(v, i):
-    """v is `(*param_i).0` or `param_i.0`"""
+    """v is `(*param_i).0` or `param_i.0` (also when read through a reborrow made for a spliced-in helper)"""
     v = uncast(v)
-    return v in (('field', ('deref', ('local', i)), '0'), ('field', ('local', i), '0'))
+    return v in (('field', ('deref', ('local', i)), '0'), ('field', ('local', i), '0'), ('field', ('mem', '_%d.*' % i), '0'),
+                 ('mem', '_%d.*.f0' % i))
 
 
 def is_param(v, i):
     v = uncast(v)
-    return v in (('deref', ('local', i)), ('local', i), ('ref', '_%d.*' % i), ('ref', '_%d' % i))
+    return v in (('deref', ('local', i)), ('local', i), ('ref', '_%d.*' % i), ('ref', '_%d' % i), ('mem', '_%d.*' % i))
 
 
 # ----------------------------------------------------------------------------------------
 def check_object_eq(F, rep, rule, heap_types):
+    """Object equality, read per path: which tag relation the path established and what it returns.  The spelling of the
+    tests (`!=` early return, `==` with else, `match`) and helpers the arms were moved into do not matter."""
+    from rules.unsafe_inv import tag_facts
     name = '<object::Object as core::cmp::PartialEq>::eq'
     fn = F.fn(name)
     ai = AbsInt(F, fn)
     paths = ai.run()
-    tag_first = False
+    PAYLOAD = ('object::Object::as_f64', 'object::Object::as_str', 'object::Object::as_vec', 'object::Object::get', 'object::Float::read', 'object::Array::read')
+    differ_paths = 0
+    differ_ok = True
     seen = {}
     for p in paths:
-        sw = [c for c in p.constraints if c[0][0] == 'switch']
-        vs = variant_constraints(p)
-        if sw and not vs:
-            # the early exit on differing tags
-            c = sw[0]
+        rel = None      # True: tags known equal, False: known different
+        for c in p.constraints:
+            if c[0][0] != 'switch':
+                continue
             v = c[0][1]
-            if v[0] == 'call' and v[1].endswith('PartialEq::ne') and truth(c) and p.exit == 'return' and p.env.get('_0') == ('int', 0, 'bool'):
+            if v[0] == 'call' and v[1].endswith(('PartialEq::ne', 'PartialEq>::ne', 'PartialEq::eq', 'PartialEq>::eq')) and len(v[2]) == 2:
                 a0, a1 = [deref(p.env, a) for a in v[2]]
                 if a0[0] == 'call' and a0[1] == 'object::Object::tag' and a1[0] == 'call' and a1[1] == 'object::Object::tag':
-                    tag_first = True
+                    rel = truth(c) != v[1].endswith('ne')
+                    break
+        if rel is False:
+            differ_paths += 1
+            if not (p.exit == 'return' and p.env.get('_0') == ('int', 0, 'bool')) or any(c[1].startswith(PAYLOAD) for c in p.calls):
+                differ_ok = False
             continue
-        for _, var in vs[:1]:
-            seen.setdefault(var, []).append(p)
-    rep.ob(tag_first, rule, name, 'tag comparison first', 'differing tags return false before any payload is looked at', fn.loc())
+        vs = sorted({ty for o_, ty in tag_facts(p)}) or [v_ for _, v_ in variant_constraints(p)][:1]
+        for var in vs[:1]:
+            seen.setdefault(var, []).append((p, rel))
+    rep.ob(differ_paths >= 1 and differ_ok, rule, name, 'tag comparison first', 'differing tags return false before any payload is looked at', fn.loc())
     tyvars = [n for n, _ in F.enum_variants(TYPE)]
     for var in tyvars:
         ps = seen.get(var, [])
         if not ps:
             rep.bad(rule, name, 'arm ' + var, 'no path for Type::%s' % var, fn.loc())
             continue
-        for p in ps:
+        for p, rel in ps:
             if p.exit != 'return':
                 # diverging arm (unimplemented!) — not an equality answer; totality is C05's business
                 rep.good(rule, name, 'arm %s (diverges)' % var, 'no comparison made (reported under C05)', fn.loc(), nontrivial=False)
@@ -94,7 +105,12 @@ def check_object_eq(F, rep, rule, heap_types):
                     ok = all(a[0] == 'call' and a[1].startswith('object::Object::as_str') for a in args) and len(args) == 2 \
                         and {1, 2} == {i for i in (1, 2) for a in args if is_param(deref(p.env, a[2][0]), i)}
             else:
-                ok = is_binop(r, 'Eq') and ((is_param_word(r[2], 1) and is_param_word(r[3], 2)) or (is_param_word(r[2], 2) and is_param_word(r[3], 1)))
+                a = b = None
+                if is_binop(r, 'Eq'):
+                    a, b = r[2], r[3]
+                elif r and r[0] == 'call' and r[1].endswith('ptr::eq') and len(r[2]) == 2:
+                    a, b = r[2]          # the word is a pointer-sized value: address comparison is word comparison
+                ok = a is not None and ((is_param_word(a, 1) and is_param_word(b, 2)) or (is_param_word(a, 2) and is_param_word(b, 1)))
             rep.ob(ok, rule, name, 'arm ' + var,
                    ('heap payloads are compared by content' if var in heap_types else 'immediates are compared by word') + ': ' + show(r), fn.loc())
 
